@@ -790,3 +790,51 @@ def _def_range(fn, sd, lty, depth, seen):
         rb = int_range(fn, rv[3], sd[1], depth, seen) or INT_RANGE.get(rv[4])
         return _clip(bin_range(rv[1], ra, rb), rv[4])
     return INT_RANGE.get(lty)
+
+
+def reach_flags(fn, start, avoid_blocks=(), env=None):
+    """Blocks reachable from `start` when boolean flag locals that are assigned a constant on the way are followed through the
+    switches that test them (`valid = false; break; … if !valid { continue }`). Sound over-approximation of the feasible paths:
+    a switch is pruned only when the tested local provably holds a constant on this path."""
+    avoid = set(avoid_blocks)
+    seen = set()
+    out = set()
+    st = [(start, tuple(sorted((env or {}).items())))]
+    while st:
+        b, e = st.pop()
+        if b in avoid or (b, e) in seen:
+            continue
+        seen.add((b, e))
+        out.add(b)
+        envd = dict(e)
+        for s_ in fn.bbs[b]["s"]:
+            if s_[0] != "a":
+                continue
+            pl, rv = s_[1], s_[2]
+            if pl[1]:
+                continue
+            l = pl[0]
+            if rv[0] == "use" and rv[1][0] == "k" and rv[1][1].get("k") == "int" and rv[1][1].get("ty") == "bool":
+                envd[l] = rv[1][1]["v"]
+            elif rv[0] == "use" and rv[1][0] in ("c", "m") and not rv[1][1][1] and rv[1][1][0] in envd:
+                envd[l] = envd[rv[1][1][0]]
+            elif rv[0] == "un" and rv[1] == "Not" and rv[2][0] in ("c", "m") and not rv[2][1][1] and rv[2][1][0] in envd:
+                envd[l] = 1 - envd[rv[2][1][0]]
+            else:
+                envd.pop(l, None)
+        t = fn.term(b)
+        if t[0] == "call" and not t[3][1]:
+            envd.pop(t[3][0], None)
+        succs = None
+        if t[0] == "switch" and t[1][0] in ("c", "m") and not t[1][1][1] and t[1][1][0] in envd:
+            v = envd[t[1][1][0]]
+            tgts = [tg for val, tg in switch_edges(t) if val == v]
+            if not tgts:
+                tgts = [tg for val, tg in switch_edges(t) if val is None]
+            succs = tgts
+        if succs is None:
+            succs = [x for x in fn.succ_of_term(t) if x is not None]
+        ne = tuple(sorted(envd.items()))
+        for x in succs:
+            st.append((x, ne))
+    return out
